@@ -275,6 +275,90 @@ def c14_operator(cfg):
     return rec
 
 
+def c14_sparse_dense(cfg):
+    """scipy.sparse-valued input gives the same numbers as dense input (sparse values cannot carry symbolic payloads, so this
+    sub-claim is decided by exhaustive concrete enumeration of an integer domain; the dense path itself is solver-verified)."""
+    import itertools
+    import warnings
+
+    from pymablock import block_diagonalize
+    from pymablock.series import one, zero
+    from scipy import sparse
+
+    rec = Rec("C14", cfg)
+    N, herm, maxo = cfg["N"], cfg.get("hermitian", True), cfg.get("max_order", 3)
+    rng = np.random.default_rng(3)
+    H1 = rng.integers(1, 5, (N, N)).astype(float) * rng.choice([-1.0, 1.0], (N, N))
+    H1 = H1 + H1.T if herm else H1
+    H1[H1 == 0] = 1.0
+    H2 = np.diag(np.arange(1.0, N + 1))
+    cases = bad = 0
+    first = None
+    assignments = [a for a in itertools.product(range(cfg["nblocks"]), repeat=N) if all(a[k] <= max(a[:k], default=-1) + 1 for k in range(N))]
+    for spec in itertools.product(range(3), repeat=N):
+        for blocks in assignments:
+            nb = max(blocks) + 1
+            if any(blocks[a] != blocks[b] and spec[a] == spec[b] for a in range(N) for b in range(N)) or not any(spec):
+                continue
+            for fdk in ("none", "all", "mask"):
+                if fdk == "none":
+                    fd = ()
+                elif fdk == "all":
+                    fd = tuple(range(nb))
+                else:
+                    idx0 = [k for k in range(N) if blocks[k] == 0]
+                    if len(idx0) < 2:
+                        continue
+                    m = np.array([[spec[a] != spec[b] for b in idx0] for a in idx0], dtype=bool)
+                    if len(idx0) >= 3 and m[0, 1]:
+                        m[0, 1] = m[1, 0] = False
+                    fd = {0: m}
+                cases += 1
+                H0 = np.diag(np.array(spec, dtype=float))
+                outs = []
+                with warnings.catch_warnings():
+                    warnings.simplefilter("ignore")
+                    for fmt in ("dense", "sparse", "sparse_h1_only"):
+                        if fmt == "dense":
+                            ham = {(0,): H0, (1,): H1.copy(), (2,): H2.copy()}
+                        elif fmt == "sparse":
+                            ham = {(0,): sparse.csr_array(H0), (1,): sparse.csr_array(H1), (2,): sparse.csr_array(H2)}
+                        else:
+                            ham = {(0,): H0, (1,): sparse.coo_array(H1), (2,): H2.copy()}
+                        res = block_diagonalize(ham, subspace_indices=list(blocks), fully_diagonalize=fd, hermitian=herm)
+                        vals = {}
+                        for w, S in enumerate(res):
+                            for n in range(maxo + 1):
+                                for i in range(nb):
+                                    for j in range(nb):
+                                        v = S[(i, j, n)]
+                                        di, dj = blocks.count(i), blocks.count(j)
+                                        if v is zero:
+                                            v = np.zeros((di, dj))
+                                        elif v is one:
+                                            v = np.eye(di)
+                                        elif hasattr(v, "toarray"):
+                                            v = v.toarray()
+                                        vals[(w, i, j, n)] = np.asarray(v, dtype=complex)
+                        outs.append(vals)
+                for k in outs[0]:
+                    for other, nm in ((outs[1], "sparse"), (outs[2], "sparse_h1_only")):
+                        a, b = outs[0][k], other[k]
+                        sc = max(1.0, float(np.max(np.abs(a))) if a.size else 1.0)
+                        if a.shape != b.shape or not np.all(np.isfinite(b)) or np.max(np.abs(a - b), initial=0.0) > 1e-9 * sc:
+                            bad += 1
+                            first = first or {"spectrum": list(spec), "subspace_indices": list(blocks), "fully_diagonalize": fdk, "format": nm,
+                                              "element": [NAMES[k[0]], *k[1:]], "hermitian": herm}
+    if first:
+        rec.direct_violation(f"sparse-valued input differs from dense input: {first}", f"sparse-vs-dense:herm={herm}:fd={first['fully_diagonalize']}", dict(first, differing_elements=bad, cases=cases))
+    else:
+        rec.discharged(f"{cases} integer problems (N={N}): sparse-valued and dense-valued inputs give identical H_tilde, U, U_inv to order {maxo}", "confirmed")
+    rec.obligations[-1]["cases"] = cases
+    rec.nontrivial = True
+    rec.sample = {"config": cfg, "cases": cases}
+    return rec
+
+
 def configs(tier):
     from ..configs import RAT_SPECTRA, RAT_SPECTRA_ALT
 
@@ -290,6 +374,11 @@ def configs(tier):
             for fmt in ["dict_monomial", "sympy_matrix", "blocks", "blockseries", "eigvec_real"]:
                 cfgs.append(dict(hermitian=herm, sizes=list(sizes), spectrum=RAT_SPECTRA_ALT.get(N, spec), terms=[[1, 0], [0, 1], [1, 1]], max_order=2 if N > 2 else 3, format=fmt))
             cfgs.append(dict(hermitian=herm, sizes=list(sizes), spectrum=spec, terms=[[1, 0], [0, 1]], max_order=2, format="list"))
+            # three and four first-order perturbations (index bookkeeping of the list / monomial / matrix formats)
+            for fmt in ("list", "dict_monomial", "sympy_matrix"):
+                cfgs.append(dict(hermitian=herm, sizes=list(sizes), spectrum=spec, terms=[[1, 0, 0], [0, 1, 0], [0, 0, 1]], max_order=2, format=fmt))
+            if N <= 3:
+                cfgs.append(dict(hermitian=herm, sizes=[1, 1], spectrum=RAT_SPECTRA[2], terms=[[1, 0, 0, 0], [0, 1, 0, 0], [0, 0, 1, 0], [0, 0, 0, 1]], max_order=2, format="list"))
         # symbolic spectrum through the formats that keep H_0 diagonal
         for fmt in ["list", "dict_monomial", "sympy_matrix", "blocks", "blockseries", "eigvec_identity"]:
             cfgs.append(dict(hermitian=herm, sizes=[1, 2], spectrum="sym", terms=[[1]], max_order=2, format=fmt, complex_spectrum=False))
@@ -302,6 +391,9 @@ def configs(tier):
             cfgs.append(dict(hermitian=herm, sizes=[2, 1], spectrum=RAT_SPECTRA[3], terms=[[1]], max_order=3, format=fmt, fd=[0]))
             cfgs.append(dict(hermitian=herm, sizes=[3], spectrum=RAT_SPECTRA[3], terms=[[1]], max_order=2, format=fmt, fd={"0": [[0, 1, 0], [1, 0, 0], [0, 0, 0]]}))
     jobs = [("vf.props.formats", "c14", c) for c in cfgs]
+    for herm in (True, False):
+        for N, nbl in ((2, 2), (3, 2), (3, 3)) + (((4, 2),) if tier == "thorough" else ()):
+            jobs.append(("vf.props.formats", "c14_sparse_dense", dict(sparse_dense=True, N=N, nblocks=nbl, hermitian=herm, max_order=3)))
     for kind in ("real", "complex", "biorthogonal"):
         for sizes in ([1, 2], [2, 2], [1, 1, 1]):
             jobs.append(("vf.props.formats", "c14_operator", dict(operator=True, sizes=list(sizes), basis=kind, hermitian=False)))
